@@ -861,8 +861,8 @@ func TestVerifC44(t *testing.T) {
 	var queriesRun int64
 	depth := mc.Pick(c, 3, 4)
 	perCfg := map[string]any{}
-	for ci, cfg := range c44Cfgs {
-		cfg := cfg
+	for _, ci := range []int{1, 2, 0} { // the shallow configurations first
+		cfg := c44Cfgs[ci]
 		d := depth
 		if ci > 0 {
 			d = mc.Pick(c, 2, 3)
